@@ -15,6 +15,8 @@ pub const BUDGET: u64 = 600;
 
 #[derive(Serialize, Deserialize, Debug, Clone)]
 pub struct FileCase {
+    #[serde(default)]
+    pub raw_lines: Option<Vec<String>>,
     pub prog: Program,
     pub style: Style,
     pub seed: u64,
@@ -31,7 +33,7 @@ pub struct FileCase {
 const DUP_TEXT: &[&str] = &["PRINT \"first definition\"", "REM old", "Q = 99 : GOTO 0", "DATA 1, 2, 3"];
 
 fn file_lines(c: &FileCase) -> Vec<String> {
-    let mut lines = render_program(&c.prog, c.style);
+    let mut lines = c.raw_lines.clone().unwrap_or_else(|| render_program(&c.prog, c.style));
     // earlier definitions of some lines (the later one wins)
     for (at, k) in &c.dups {
         if lines.is_empty() {
@@ -78,7 +80,7 @@ fn case(rnd: bool) -> impl Strategy<Value = FileCase> {
         any::<bool>(),
         any::<bool>(),
     )
-        .prop_map(|(prog, style, seed, replies, order, dups, crlf, warnings, tracing)| FileCase { prog, style, seed, replies, order, dups, crlf, warnings, tracing })
+        .prop_map(|(prog, style, seed, replies, order, dups, crlf, warnings, tracing)| FileCase { raw_lines: None, prog, style, seed, replies, order, dups, crlf, warnings, tracing })
 }
 
 fn check_inproc(c: &FileCase, rec: &mut CaseRec) -> Verdict {
@@ -306,6 +308,17 @@ fn check_cli(c: &CliCase, rec: &mut CaseRec) -> Verdict {
 pub fn property() -> Property {
     let families: Vec<Box<dyn Family>> = vec![
         prop_family("in-process", 50_000, 600_000, |_| case(true), check_inproc),
+        prop_family(
+            "repo-programs-in-process",
+            600,
+            20_000,
+            |_| {
+                (0usize..2, any::<u64>(), crate::textgen::numeric_replies(), any::<u64>(), prop::collection::vec((any::<u16>(), 0u8..4), 0..3), any::<bool>(), any::<bool>(), any::<bool>()).prop_map(
+                    |(w, seed, replies, order, dups, crlf, warnings, tracing)| FileCase { raw_lines: Some(crate::textgen::repo_program(w)), prog: Program::default(), style: Style::PLAIN, seed, replies, order, dups, crlf, warnings, tracing },
+                )
+            },
+            check_inproc,
+        ),
         prop_family("cli-processes", 8_000, 100_000, |_| (case(false), 0u8..8).prop_map(|(file, opts)| CliCase { file, opts }), check_cli),
     ];
     Property {
